@@ -22,6 +22,7 @@
     No proofs here. *)
 From Coq Require Import ZArith List Bool.
 From Canto Require Import Lib.SdkInt Lib.SdkDec.
+From Canto Require Model.Inflation.
 Import ListNotations.
 Open Scope Z_scope.
 
@@ -125,10 +126,21 @@ Record inf_params := mkInf {
 (* validateMintDenom: TrimSpace(v) != "" and ValidateDenom(v); a blank string has no
    leading letter, so the first test is implied by the second *)
 Definition inf_v_denom (d : str) : bool := valid_denom d.
-(* validateExponentialCalculation *)
+(* provisionComputable (added by the repair of the C18 finding): the worst-case evaluation
+   CalculateEpochMintProvision(v, period 0, 1 epoch per period, bonded ratio 0).TruncateInt()
+   does not panic.  [Inflation.calc_provision] is the checked transcription of the formula
+   (None = LegacyDec overflow or division by zero), [SdkDec.truncate_int] has the 256-bit limit
+   of sdkmath.Int. *)
+Definition inf_computable (a r c bt mv : Z) : bool :=
+  match Inflation.calc_provision (Inflation.mkExp a r c bt mv) 0%N 1 0 with
+  | Some p => match SdkDec.truncate_int p with Some _ => true | None => false end
+  | None => false
+  end.
+(* validateExponentialCalculation: the range checks, then provisionComputable *)
 Definition inf_v_exp (a r c bt mv : Z) : bool :=
   negb (a <? 0) && negb (dec_one <? r) && negb (r <? 0) && negb (c <? 0) &&
-  negb (dec_one <? bt) && (0 <? bt) && negb (mv <? 0).
+  negb (dec_one <? bt) && (0 <? bt) && negb (mv <? 0) &&
+  inf_computable a r c bt mv.
 (* validateInflationDistribution: Add panics above 315 bits *)
 Definition inf_v_dist (s cp : Z) : bool :=
   negb (s <? 0) && negb (cp <? 0) &&
